@@ -166,7 +166,7 @@ func (r *Replayer) matches(v Violation, out string) bool {
 	case "panic":
 		return strings.Contains(out, "panic:") && !strings.Contains(out, "VERIF-ASSERT-FAILED") && !strings.Contains(out, "VERIF-TRACE-EXHAUSTED") && !strings.Contains(out, "test timed out")
 	case "budget":
-		return strings.Contains(out, "test timed out")
+		return strings.Contains(out, "test timed out") || strings.Contains(out, "stack overflow") || strings.Contains(out, "goroutine stack exceeds")
 	case "race":
 		return strings.Contains(out, "DATA RACE")
 	case "deadlock":
